@@ -434,6 +434,9 @@ class Rewriter:
         if x.kind == "constant":
             value, like = x.operands
             if isinstance(value, value_types):
+                if like.is_complex:
+                    # absolute value of a complex constant is real
+                    like = x.context.real(like)
                 return x.context.constant(abs(value), like)
 
     def apply(self, expr):
